@@ -9,22 +9,24 @@ namespace SMD.C09
 /-- `ConflictsFromManagers`: the reported conflicts are the same set of (manager, path) pairs whatever
 the iteration order over the managers -/
 theorem conflicts_perm (cs cs' : List (String × VersionedSet)) (h : cs.Perm cs') :
-    (conflictsOf cs).Perm (conflictsOf cs') := sorry
+    (conflictsOf cs).Perm (conflictsOf cs') := conflictsOf_perm h
 
 /-- `addBackOwnedItems`: the union of the records at each version does not depend on the order in
 which the managers are visited (membership in the per-version union, for well-formed records) -/
 theorem managedAtVersion_perm (m m' : Managed) (h : m.Perm m')
     (hwf : ∀ x, x ∈ m → x.2.set.wf = true) (v : String) (q : Path) :
     (match (managedAtVersion m).find? (·.1 == v) with | some e => e.2.has q | none => false) =
-    (match (managedAtVersion m').find? (·.1 == v) with | some e => e.2.has q | none => false) := sorry
+    (match (managedAtVersion m').find? (·.1 == v) with | some e => e.2.has q | none => false) :=
+  mavHas_perm h hwf v q
 
 /-- validation of a map does not depend on the order in which its entries are visited -/
 theorem validateFields_perm (s : Schema) (dup : Bool) (t : MapT) (m m' : List (String × Value)) (h : m.Perm m') :
-    validateFields s dup t m = validateFields s dup t m' := sorry
+    validateFields s dup t m = validateFields s dup t m' := validateFields_perm' s dup t h
 
 /-- the field set of a map does not depend on the order in which its entries are visited -/
 theorem fsFields_perm (s : Schema) (t : MapT) (m m' : List (String × Value)) (h : m.Perm m')
     (ps ps' : List Path) (h1 : fsFields s t m = .ok ps) (h2 : fsFields s t m' = .ok ps') (q : Path) :
-    (SetTrie.ofPaths ps).has q = (SetTrie.ofPaths ps').has q := sorry
+    (SetTrie.ofPaths ps).has q = (SetTrie.ofPaths ps').has q :=
+  has_ofPaths_perm (fsFields_perm_paths s t h h1 h2) q
 
 end SMD.C09
